@@ -879,10 +879,16 @@ class SGPRPredictionStrategy(DefaultPredictionStrategy):
         if isinstance(test_test_covar, LazyEvaluatedKernelTensor) and isinstance(
             test_test_covar.kernel, InducingPointKernel
         ):
+            base_kernel = test_test_covar.kernel.base_kernel
+            x1, x2 = test_test_covar.x1, test_test_covar.x2
+            # A LazyEvaluatedKernelTensor expects inputs that are already restricted to the kernel's active dims
+            if base_kernel.active_dims is not None:
+                x1 = x1.index_select(-1, base_kernel.active_dims)
+                x2 = x2.index_select(-1, base_kernel.active_dims)
             test_test_covar = LazyEvaluatedKernelTensor(
-                test_test_covar.x1,
-                test_test_covar.x2,
-                test_test_covar.kernel.base_kernel,
+                x1,
+                x2,
+                base_kernel,
                 test_test_covar.last_dim_is_batch,
                 **test_test_covar.params,
             )
